@@ -104,6 +104,26 @@ CLAIMED.update({
         note=TRUST + "File I/O replaced by a stub returning symbolic lines; nothing asserted where the property is silent (header after content, no residues)."),
 })
 
+CLAIMED.update({
+    "C09": dict(
+        technique="bounded symbolic execution of the real source (symx) + SMT (z3): symbolic real pH, 10**x as an uninterpreted function with contract axioms, per-residue lemma cut; pI per composition with entailed bisection",
+        text="get_NCPR/FCR/mean_net_charge/fraction_expanding(pH) executed symbolically with a symbolic real pH on symbolic sequences: equal to the Henderson-Hasselbalch sums with the EMBOSS pKa table "
+             "(1/(1+10^x) uninterpreted, shared with the reference), NCPR non-increasing in pH, |NCPR| <= FCR <= titratable/N, FER = FCR + proline fraction, pH outside [0,14] rejected on every path; "
+             "get_isoelectric_point executed for every composition of titratable residue types up to the bound: no raising path, 7.0 when nothing titrates, charge at the returned pH within 0.02.",
+        note=TRUST + "10**x only through positivity/monotonicity in the symbolic-pH obligations; counterexamples replayed numerically."),
+    "C15": dict(
+        technique="bounded symbolic execution of the real source (symx) + SMT (z3): four histories over the same symbolic sequence compared in one query set",
+        text="48 read-only queries are executed symbolically on a symbolic sequence (composition fixed) in four histories -- fresh objects in a fresh process, fresh objects after other live objects were "
+             "analysed, and one object queried in forward and in reverse order -- and every value is proved equal to the fresh-object value; stored sequence and phosphosite list proved unchanged.",
+        note=TRUST + "Each ordered pair of queries occurs in one of the two chains; arbitrary repetition patterns are outside. Counterexamples replayed natively in a clean subprocess."),
+    "C17": dict(
+        technique="bounded symbolic execution of the real source (symx) + SMT (z3) with the RNG as a nondeterministic stub (symbolic permutations / samples / integers)",
+        text="full_shuffle (every frozen set), get_shuffled_sequence, get_permutant, swapRes (symbolic indices), swapRandChargeRes and permute_block_swap executed symbolically on symbolic sequences with "
+             "random.Random replaced by arbitrary outcomes: the child is a rearrangement, frozen positions keep their residue, length / charge pattern equal those of a fresh object of the child's sequence, "
+             "carried delta-max is the parent's or empty, the parent is unchanged, no exception on any path (shuffles and swaps).",
+        note=TRUST + "permute_cluster_charges is outside (not encodable within reach); the block move's disregard of `frozen` is a recorded known finding."),
+})
+
 REASON_PENDING = "check not built yet (framework under construction); see DESIGN.md section 5 for the plan"
 
 
